@@ -34,6 +34,7 @@ func init() {
 		Rule{ID: "R16c", Doc: "an exchange never returns (nil, nil) (shared with C16)", Floor: 4, Run: r16c},
 		Rule{ID: "R13e", Doc: "one frame, one Write on stream listeners (shared with C13)", Floor: 4, Run: r13e},
 		Rule{ID: "R06c", Doc: "the stream frame reader consumes exactly prefix + body with exact-length reads (a body split over segments is still one decodable query that must be answered; shared with C06/C13)", Floor: 6, AllVariants: true, Run: r06c},
+		Rule{ID: "R20m", Doc: "a listener's per-query goroutine has its own query variable (a variable shared across loop iterations lets one goroutine answer or release another query's message; shared with C20)", Floor: 5, Run: r20m},
 	)
 }
 
